@@ -1,8 +1,10 @@
 package rules
 
 import (
+	"go/constant"
 	"go/types"
 	"sort"
+	"strconv"
 	"strings"
 
 	"golang.org/x/tools/go/ssa"
@@ -270,4 +272,104 @@ func isDummy(w *an.World, fn *ssa.Function) bool {
 		}
 	}
 	return false
+}
+
+// ---- constants and chain/version facts ----------------------------------------------
+
+// constOf returns the constant value of package-level constant rel.name.
+func constOf(w *an.World, rel, name string) (constant.Value, bool) {
+	p := w.ByRel[rel]
+	if p == nil {
+		return nil, false
+	}
+	c, ok := p.Types.Scope().Lookup(name).(*types.Const)
+	if !ok {
+		return nil, false
+	}
+	return c.Val(), true
+}
+
+// liquidV7 gathers the two constants that select the Liquid protocol-7 branch.
+type liquidV7 struct {
+	lbtc    string
+	version int64
+}
+
+func getLiquidV7(c *an.Check) (liquidV7, bool) {
+	lv, ok1 := constOf(c.W, "swap", "l_btc_chain")
+	pv, ok2 := constOf(c.W, "swap", "PEERSWAP_PROTOCOL_VERSION")
+	if !ok1 || !ok2 || lv.Kind() != constant.String {
+		c.Anchor("constants swap.l_btc_chain / swap.PEERSWAP_PROTOCOL_VERSION do not resolve")
+		return liquidV7{}, false
+	}
+	v, _ := constant.Int64Val(pv)
+	return liquidV7{lbtc: constant.StringVal(lv), version: v}, true
+}
+
+// notLiquidV7 reports whether fact f says "this is NOT a Liquid v7 swap" on its
+// edge: chain != "lbtc" or protocol version != 7.
+func (l liquidV7) notLiquidV7(f an.Fact) bool {
+	if f.NonNum && f.Rel == "!=" && an.EqIs(f, "!=", ").GetChain", strconv.Quote(l.lbtc)) {
+		return true
+	}
+	if !f.NonNum && f.Rel == "!=" {
+		return an.MatchLin(f, an.LinSpec{Rel: "!=", Terms: map[string]int64{").GetProtocolVersion": 1}, Const: -l.version})
+	}
+	return false
+}
+
+// isLiquid / isV7 positive facts.
+func (l liquidV7) isLiquid(f an.Fact) bool {
+	return f.NonNum && an.EqIs(f, "==", ").GetChain", strconv.Quote(l.lbtc))
+}
+
+func (l liquidV7) isV7(f an.Fact) bool {
+	return !f.NonNum && an.MatchLin(f, an.LinSpec{Rel: "==", Terms: map[string]int64{").GetProtocolVersion": 1}, Const: -l.version})
+}
+
+// cutEdges returns the edges of fn whose fact satisfies pred.
+func cutEdges(w *an.World, fn *ssa.Function, pred func(an.Fact) bool) map[an.Edge]bool {
+	out := map[an.Edge]bool{}
+	for _, f := range w.Facts(fn) {
+		if pred(f) {
+			out[f.Edge] = true
+		}
+	}
+	return out
+}
+
+// reachableWithCut: is target's block reachable from the entry once the cut
+// edges are removed and without passing *through* an instruction of via?
+func reachableAvoiding(target ssa.Instruction, via []ssa.Instruction, cut map[an.Edge]bool) bool {
+	fn := target.Parent()
+	tb, ti := target.Block(), an.InstrIndex(target)
+	stop := map[*ssa.BasicBlock]bool{}
+	for _, v := range via {
+		if v.Parent() != fn {
+			continue
+		}
+		if v.Block() == tb {
+			if an.InstrIndex(v) < ti {
+				return false
+			}
+			continue
+		}
+		stop[v.Block()] = true
+	}
+	reach := an.ReachBlocks([]*ssa.BasicBlock{fn.Blocks[0]}, cut, stop)
+	return reach[tb]
+}
+
+// structField finds a field of a named struct with its tag.
+func structField(n *types.Named, field string) (*types.Var, string, bool) {
+	st, ok := n.Underlying().(*types.Struct)
+	if !ok {
+		return nil, "", false
+	}
+	for i := 0; i < st.NumFields(); i++ {
+		if st.Field(i).Name() == field {
+			return st.Field(i), st.Tag(i), true
+		}
+	}
+	return nil, "", false
 }
